@@ -22,7 +22,12 @@ EXPLANATION = (
     "Who-may-transform and typing rules for merge_pyi.py.  R20.1: in "
     "merge_sources the tree given to _merge_csts(pyi_tree=..) is "
     "parse_module(pyi) passed through RemoveAnyNeverTransformer and "
-    "RemoveTrivialTypesTransformer, the py tree is parse_module(py) with no "
+    "RemoveTrivialTypesTransformer (every step of the chain - followed through "
+    "re-assignments of the local - is `.visit(<instance of a class of the "
+    "module>)`, the instance written in place or held in a local, its "
+    "constructor arguments binding to the class's __init__; a step whose "
+    "class derives only from libcst's read-only CSTVisitor yields the receiver "
+    "itself and counts as no step), the py tree is parse_module(py) with no "
     "transformer at all, the value returned is exactly <merged>.code, and "
     "_merge_csts stores the pyi tree as stub and transforms the py tree with "
     "libcst's ApplyTypeAnnotationsVisitor.  R20.2: both switches that could "
@@ -32,12 +37,24 @@ EXPLANATION = (
     "filter predicate and every call of that predicate, the static type of "
     "the argument (libcst dataclass field annotations followed along the "
     "attribute chain from the leave_X parameter) can be a T - otherwise the "
-    "filter is dead and `x: Any` is merged (defect D4).  R20.4: the local "
+    "filter is dead and `x: Any` is merged (defect D4); names are typed "
+    "flow-sensitively (join over the reaching definitions: parameter type, "
+    "type of the assigned value, element type for loop and comprehension "
+    "targets; loop-carried re-bindings by fixpoint), and a narrowing test is "
+    "used only while no name it mentions has been re-bound since it was "
+    "evaluated (must-flow), so `while isinstance(p, A): p = p.value` is typed "
+    "as written.  R20.4: the local "
     "transformers are instantiated only on the pyi chain and nothing else in "
-    "the module rewrites a tree.  R20.5: merge_files_src writes only the "
+    "the module rewrites a tree; a class whose only foreign base is "
+    "libcst.CSTVisitor is read-only (libcst's CSTNode.visit returns the node "
+    "itself for it - read from libcst/_nodes/base.py on every run), may be "
+    "instantiated anywhere, and `.visit(<such an instance>)` is not a "
+    "rewrite.  R20.5: merge_files_src writes only the "
     "merge_sources result, only to the py path it read, only in OVERWRITE "
     "mode.  R20.6: nodes rebuilt by the filters get arguments of the "
-    "declared field types (no Assign without value).  R20.7: "
+    "declared field types (no Assign without value); positional arguments "
+    "are bound to the fields in the order of the libcst dataclass "
+    "declaration (one too many, or given twice, is a violation).  R20.7: "
     "RemoveAnyNeverTransformer has a leave_X callback for both node classes "
     "whose own annotation the property speaks about (AnnAssign.annotation, "
     "FunctionDef.returns - taken from the libcst field declarations), and in "
@@ -80,12 +97,32 @@ EXPLANATION = (
     "imports), user stubs that spell Any through their own aliases, nor "
     "that the filters remove every undesirable annotation; whether "
     "output.py puts a Generic base into node.bases that the source class "
-    "does not have.  KNOWN GAP (genuine defect on the reference tree, no "
-    "rule): libcst's leave_Module appends every stub class the source does "
-    "not define as a new class statement, and the stub pytype infers for "
-    "`P = NamedTuple('P', [('x', int)])` / collections.namedtuple(...) "
-    "contains `class P(NamedTuple)`, so merging inserts `class P(NamedTuple): "
-    "pass` into the source (tree changes beyond annotations).")
+    "does not have.  R20.22 / R20.23 (rules/c20_stub_classes.py; kept as "
+    "rules/pending_c20_stub_classes.py, which is not loaded, until the repair "
+    "of defects D57/D58 is in the tree under test): read from libcst's source "
+    "that leave_Module appends every stub class whose simple name was not met "
+    "as a ClassDef of the source (D57: the stub of `P = NamedTuple('P', ..)` "
+    "has `class P(NamedTuple)`, so a class statement is inserted) and that "
+    "the stub reader registers an import for every dotted name in an "
+    "annotation or a class base, and from the stub printer that a class "
+    "nested in a class of the same stub is printed as `Outer.Inner` (D58: "
+    "`from Outer import Inner` is added); the obligations are decided by "
+    "model execution: merge_sources and the callbacks of the local visitor / "
+    "transformer classes are interpreted (an interpreter over their ast, on "
+    "libcst-shaped model nodes, following libcst's visit/leave protocol) on a "
+    "witness source/stub pair, and the tree that reaches _merge_csts may "
+    "define no class the witness source has no class statement for (R20.22) "
+    "and may hold no Attribute chain rooted at a stub class inside an "
+    "Annotation or a base list, nor a subscripted string (R20.23).  Blind "
+    "spots of these two: only the witness is decided (names the code could "
+    "not know, nesting depth up to three, annotations on variables, "
+    "parameters, returns, class attributes) - a filter that misbehaves only "
+    "on other shapes passes; subscripted dotted bases `class C(A.B[int])`, "
+    "classes defined inside function bodies (libcst does not count them as "
+    "visited, a collector may), and dotted names rooted at a stub class that "
+    "was itself dropped (`Color.RED` for a functional enum) are not in the "
+    "witness and not judged; what the interpreter does not model is an "
+    "ANALYSIS-ERROR.")
 ASSUMPTIONS = [
     "libcst's ApplyTypeAnnotationsVisitor only adds annotations (and the "
     "imports they need) to the tree given to transform_module and never "
@@ -107,6 +144,19 @@ ASSUMPTIONS = [
     "Subscript(value=Name('Generic')) (read from "
     "codemod/visitors/_apply_type_annotations.py: _find_generic_base) and "
     "whole classes absent from the source",
+    "CSTNode.visit returns the visited node itself when the visitor is a "
+    "CSTVisitor (read from libcst/_nodes/base.py), and a class deriving only "
+    "from CSTVisitor does not reach into node internals (nodes are frozen "
+    "dataclasses)",
+    "the constructor of a libcst node takes its fields positionally in the "
+    "order of the annotated class attributes of its @dataclass declaration "
+    "(own declarations only; ClassVar excluded)",
+    "R20.22/R20.23 model libcst's traversal as: visit_X(node) (False prunes), "
+    "children in field order, leave_X(original, updated) whose result "
+    "replaces the node, RemovalSentinel drops an element of a sequence (and "
+    "a statement line that lost its last statement), a CSTVisitor changes "
+    "nothing; a model run raises no exception (except-handlers are not "
+    "taken)",
     "stubs given to merge-pyi are the ones pytype's printer produces "
     "(PrintVisitor); _Imports.get_alias returns the alias of a from-import, "
     "i.e. a bare identifier",
@@ -409,6 +459,7 @@ class Typer:
     self._active = set()
     self._assumed = {}
     self._grew = self._cyclic = False
+    self.dead = set()     # ids of statements known to be unreachable
 
   def node_class(self, expr):
     """Resolves `cst.X` / `expression.X` to a libcst node class name."""
@@ -476,6 +527,8 @@ class Typer:
       raise AnalysisError(f"typing: {expr.id} has no known static type")
     out = frozenset()
     for d in sorted(ds, key=lambda d: (getattr(d.node, "lineno", 0), d.kind)):
+      if id(d.node) in self.dead:
+        continue          # bound in a branch the caller has shown to be unreachable
       if d.kind == "param":
         if d.name not in self.env:
           raise AnalysisError(f"typing: {expr.id} has no known static type")
@@ -725,9 +778,11 @@ def _methods(mod, cname):
   return out
 
 
-def _method_env(model, typer_mod, fn):
-  """Parameter types of a libcst callback, from its name (leave_X / visit_X)."""
-  for prefix, n in (("leave_", 2), ("visit_", 1)):
+def _method_env(model, typer_mod, fn, kind="transformer"):
+  """Parameter types of a libcst callback, from its name (leave_X / visit_X).
+  libcst calls leave_X(original_node, updated_node) on a transformer and
+  leave_X(original_node) on a read-only CSTVisitor."""
+  for prefix, n in (("leave_", 2 if kind == "transformer" else 1), ("visit_", 1)):
     if fn.name.startswith(prefix):
       cls = fn.name[len(prefix):]
       if cls not in model.classes:
@@ -1117,11 +1172,12 @@ def r20_3(ctx):
   m = _model(ctx)
   mod, model = m.mod, _cst(ctx)
   n = 0
+  liveness = {}
   for cname, cdef in sorted(m.classes.items()):
     methods = _methods(mod, cname)
     # call sites of helper predicates: self.<pred>(..) inside callbacks
     for mname, fn in sorted(methods.items()):
-      env = _method_env(model, mod, fn)
+      env = _method_env(model, mod, fn, m.kinds[cname])
       if env is None:
         continue
       typer = Typer(model, mod, env, fn)
@@ -1143,7 +1199,7 @@ def r20_3(ctx):
         if not d.startswith("self.") or d.count(".") != 1 or d[5:] not in methods:
           continue
         pred = methods[d[5:]]
-        if _method_env(model, mod, pred) is not None:
+        if _method_env(model, mod, pred, m.kinds[cname]) is not None:
           continue
         bound = bind_args(call, pred, skip_self=True)
         cnarrow = typer.narrow_at(call)
@@ -1156,27 +1212,101 @@ def r20_3(ctx):
                 Typer(model, mod, {}), pred)):
               raise
         ptyper = Typer(model, mod, penv, pred)
-        for c, subj, names in _isinstance_tests(ptyper, pred):
-          root = _root_name(subj)
-          if root not in penv:
+        tests = {id(c): (subj, names) for c, subj, names in _isinstance_tests(ptyper, pred)
+                 if _root_name(subj) in penv}
+        if not tests:
+          continue
+        dead = []
+
+        def can_true(e):
+          if isinstance(e, ast.BoolOp):
+            vs = [can_true(v) for v in e.values]
+            return all(vs) if isinstance(e.op, ast.And) else any(vs)
+          if isinstance(e, ast.UnaryOp) and isinstance(e.op, ast.Not):
+            return can_false(e.operand)
+          if isinstance(e, ast.Constant):
+            return bool(e.value)
+          if id(e) in tests:
+            subj, names = tests[id(e)]
+            # the subject is typed where the test stands: a parameter re-bound
+            # on the way (`while isinstance(p, A): p = p.value`) has the join of
+            # the types of the values assigned to it
+            t = ptyper.type_of(subj, ptyper.narrow_at(e))
+            ok = any(model.can_be(t, k) for k in names)
+            if not ok:
+              dead.append(f"isinstance({src(subj)}, {'/'.join(names)}) sees a {show(t)}")
+            return ok
+          return True
+
+        def can_false(e):
+          if isinstance(e, ast.BoolOp):
+            vs = [can_false(v) for v in e.values]
+            return any(vs) if isinstance(e.op, ast.And) else all(vs)
+          if isinstance(e, ast.UnaryOp) and isinstance(e.op, ast.Not):
+            return can_true(e.operand)
+          if isinstance(e, ast.Constant):
+            return not bool(e.value)
+          return True
+
+        def block(stmts):
+          """(a true value can be returned, control can fall through)."""
+          found = False
+          for st in stmts:
+            if isinstance(st, ast.Return):
+              return found or (st.value is not None and can_true(st.value)), False
+            if isinstance(st, ast.Raise):
+              return found, False
+            if isinstance(st, ast.If):
+              t_ok, f_ok = can_true(st.test), can_false(st.test)
+              for blk, live in ((st.body, t_ok), (st.orelse, f_ok)):
+                if not live:
+                  ptyper.dead |= {id(x) for b in blk for x in ast.walk(b)}
+                  ptyper._assumed.clear()
+              r1, f1 = block(st.body) if t_ok else (False, False)
+              r2, f2 = block(st.orelse) if f_ok else (False, False)
+              found = found or r1 or r2
+              if not (f1 or f2):
+                return found, False
+            elif isinstance(st, (ast.While, ast.For)):
+              if not isinstance(st, ast.While) or can_true(st.test):
+                found = block(st.body)[0] or found
+              else:
+                ptyper.dead |= {id(x) for b in st.body for x in ast.walk(b)}
+                ptyper._assumed.clear()
+              found = block(st.orelse)[0] or found
+            elif isinstance(st, (ast.With, ast.Try)):
+              raise AnalysisError(f"{pred.name}: with/try in a predicate is not modelled")
+          return found, True
+
+        possible, _ = block(pred.body)
+        n += 1
+        fresh = Typer(model, mod, penv, pred)
+        for i, (c_, subj_, names_) in enumerate(_isinstance_tests(fresh, pred)):
+          if _root_name(subj_) not in penv:
             continue
-          # the subject is typed where the test stands: a parameter re-bound on
-          # the way (`while isinstance(p, A): p = p.value`) has the join of the
-          # types of the values assigned to it, and a test made on an earlier
-          # value of the name no longer narrows it
-          t = ptyper.type_of(subj, ptyper.narrow_at(c))
-          n += 1
-          arg = src(bound[root])
-          ctx.check(any(model.can_be(t, k) for k in names),
-                    _nth(keys, f"{cname}.{pred.name}@{mname}:isinstance({src(subj)},{'|'.join(names)})"),
-                    MP, call.lineno,
-                    f"{mname} passes {arg} (static type {show(penv[root])}, from "
-                    f"the libcst field declarations) to {pred.name}, whose test "
-                    f"isinstance({src(subj)}, {'/'.join(names)}) sees a "
-                    f"{show(t)}: it can never be true, so the filter never "
-                    "fires and the annotation is merged",
-                    {"argument": arg, "argument_type": show(penv[root]),
-                     "subject_type": show(t), "tested": names})
+          t_ = fresh.type_of(subj_, fresh.narrow_at(c_))
+          rec = liveness.setdefault((cname, pred.name, i), {
+              "test": f"isinstance({src(subj_)}, {'/'.join(names_)})", "line": c_.lineno,
+              "alive": False, "sites": []})
+          rec["alive"] = rec["alive"] or any(model.can_be(t_, k) for k in names_)
+          rec["sites"].append(f"{mname}: {show(t_)}")
+        arg = ", ".join(f"{p_}={src(a_)}" for p_, a_ in sorted(bound.items()))
+        ctx.check(possible, _nth(keys, f"{cname}.{pred.name}@{mname}:can-be-true"),
+                  MP, call.lineno,
+                  f"{mname} calls {pred.name}({arg}) with static argument types "
+                  f"{ {p_: show(t_) for p_, t_ in sorted(penv.items())} } (from the libcst "
+                  f"field declarations): no path of {pred.name} can return a true "
+                  f"value ({'; '.join(sorted(set(dead))) or 'every returned value is false'}), "
+                  "so the filter never fires and the annotation is merged",
+                  {"arguments": arg, "dead_tests": sorted(set(dead))})
+  # a test of a shared predicate that no caller can ever satisfy is dead code:
+  # the arm it guards (a disjunct of the filter) never applies
+  for (cname, pname, i), rec in sorted(liveness.items()):
+    n += 1
+    ctx.check(rec["alive"], f"{cname}.{pname}:test#{i}:live-for-some-caller", MP, rec["line"],
+              f"{rec['test']} in {pname} can never be true for any caller "
+              f"({'; '.join(rec['sites'])}): the arm of the filter it guards never applies",
+              {"test": rec["test"], "callers": rec["sites"]})
   if not n:
     raise AnalysisError("no isinstance test on a libcst class found in the filters")
 
@@ -1393,7 +1523,7 @@ def r20_6(ctx):
   n = 0
   for cname in sorted(m.classes):
     for mname, fn in sorted(_methods(mod, cname).items()):
-      env = _method_env(model, mod, fn)
+      env = _method_env(model, mod, fn, m.kinds[cname])
       if env is None:
         continue
       typer = Typer(model, mod, env, fn)
